@@ -376,6 +376,26 @@ theorem get_authentication_path_node_indices_agrees_with_forest_chain (n : Nat) 
 example : [(8, 10, 9), (10, 14, 13)] ⊆ (forest 11).rows.map (fun kr => (kr.2.idx, kr.2.parent, kr.2.sibling)) ∧
     get_authentication_path_node_indices 8 14 19 = some (some [9, 13]) := by decide +kernel
 
+/-- **… on the explicit forest, exactly, for an arbitrary second argument**: for a node `r` of the forest with
+    `n < 2^63` leaves (coordinates `(r.height, j)`, its tree belonging to bit `b` of `n`), the node count of the forest
+    and *any* `p`: the result is `Some(path)` iff `p` is the node itself, one of its ancestors inside its tree (up to
+    the peak, `b − r.height` levels up), **or the would-be parent of the peak** (one level further: a node index
+    that is not in the forest — the Rust code does not notice, first `example`); `None` in every other case, in
+    particular for nodes of other trees and non-ancestors in the same tree (second `example`) -/
+theorem get_authentication_path_node_indices_on_forest_exact (n : Nat) (hn : n < 2^63) (k : Nat) (r : Row)
+    (hr : (k, r) ∈ (forest n).rows) :
+    ∃ b j, r.idx = nodeIdx r.height j ∧ r.height ≤ b ∧
+      ((forest n).peaks.map TF.Spec.Mmr.Tree.idx)[k]? = some (anc r.height j (b - r.height)) ∧
+      (∀ p path, get_authentication_path_node_indices r.idx p (forest n).nodes = some (some path) ↔
+         ∃ d, d ≤ b - r.height + 1 ∧ anc r.height j d = p ∧ path = sibsUp r.height j d) ∧
+      (∀ p, get_authentication_path_node_indices r.idx p (forest n).nodes = some none ↔
+         ∀ d, d ≤ b - r.height + 1 → anc r.height j d ≠ p) :=
+  forest_auth_path_exact n hn k r hr
+example : (1, 16) ∈ (forest 11).rows.map (fun kr => (kr.1, kr.2.idx)) ∧ (forest 11).nodes = 19 ∧
+    get_authentication_path_node_indices 16 22 19 = some (some [17, 21]) := by decide +kernel
+example : get_authentication_path_node_indices 16 17 19 = some none ∧
+    get_authentication_path_node_indices 16 15 19 = some none := by decide +kernel
+
 /-- **`leaf_index_to_mt_index_and_peak_index` against the table of the explicit forest**: for every leaf of the
     forest with `n < 2^63` leaves the function returns the Merkle-tree index recorded in the table (root `1`, children
     `2m`, `2m+1`, computed by walking the tree) and the position `k` of the leaf's tree in the peak list -/
